@@ -3,6 +3,7 @@ from .. import core
 from . import _process_common as pc
 
 ASSUMPTIONS = [
+    'TLAPS (tla/proofs/ProcessProofs.tla, theorem LenOKHolds, checked by tlapm on every run): for EVERY N >= 1, every kind of model, every arithmetic (Add, Mul, ... uninterpreted) and every environment (fluxes, heats, permeances chosen freely per step) a returned model of Process.tla has series of exactly N entries - the look-ahead entries are popped (TLC enumerates N in {1, 2, 4})',
     "leg A: exact rationals with FREE fluxes/heats per step: the balances hold for any flux function (mixture, model, permeate mode); every clause is multilinear after cross-multiplication",
     "leg B: scenarios sampled (seeded) from the matrix of the quantifier; tolerance 1e-12 of the feed mass (re-association of the additions is accepted, a dropped term is not)",
 ]
@@ -37,7 +38,9 @@ def run(ctx, pool):
     for k, v in stc["outcomes"].items():
         stats["outcomes"]["coarse_" + k] = v
     res = core.validate_traces(None, ctx, tw, pool, "Trace_Process.tla", "Trace_Process_C01.cfg")
-    return pc.finish(res, tw, stats, CLAUSES, pc.RULE)
+    res = pc.finish(res, tw, stats, CLAUSES, pc.RULE)
+    core.attach_tlaps(ctx, res, [("ProcessProofs.tla", ["Process.tla"])])
+    return res
 
 
 def classify(v, kf):
